@@ -12,7 +12,7 @@ import (
 func init() {
 	register(&Spec{ID: "C11", Title: "Server messages and environment changes are surfaced exactly once", Run: runC11,
 		Meta: core.Meta{
-			Explanation: "Call-site and dominance rules over the hook dispatch. R11.1: handleSpecialPackage is called only from tryParsePackage, the call is dominated by pkg.ReadFrom's error being nil (a retried, incomplete parse cannot reach a hook) and it dominates the delivery send. R11.2: the delivery `packageCh <- pkg` is dominated by pass == true. R11.3: inside handleSpecialPackage — on the *EnvChangePackage edge every return yields false; the member loop calls callEnvChangeHooks exactly once per iteration with (member.Type, member.OldValue, member.NewValue) of the iteration's member; Conn.packetSize is stored from Atoi(member.NewValue) only on the Type == TDS_ENV_PACKSIZE edge; on the *EEDPackage edge the informational test is the non-vacuous mask Status&TDS_EED_INFO == TDS_EED_INFO, its true edge returns false without calling hooks, the other edge calls callEEDHooks exactly once and returns true. R11.4: callEEDHooks/callEnvChangeHooks are a single range loop over the registered slice calling each element once while holding the hooks mutex; Register*Hooks append to the same slice under the same mutex and reject nil entries before appending. R11.5: NextPackageUntil collects every *EEDPackage (Add, then continue before the callback); every return on a callback-error path (other than the identity io.EOF shortcut) returns fmt.Errorf(...%w, err) or the *EEDError whose WrappedError was set to it; EEDError.Is delegates to errors.Is(WrappedError, target); EED packages collected by the drain are appended after the earlier ones. R11.7 = R02.7 (a polling NextPackageUntil that has consumed an EED must wait for the rest; giving up drops the collected messages). R11.4 also requires that the hook lists are only ever appended to (never assigned a caller's slice). R11.6 = C06's R06.5 for the member parser (each ENVCHANGE member is parsed into a fresh struct). R11.1 also requires one package per tryParsePackage invocation (a handled special package must be discarded before the next package is attempted, otherwise a fragmented successor makes it be parsed and reported again). R11.3 also requires that every iteration of the member loop evaluates the PACKSIZE test.",
+			Explanation: "Call-site and dominance rules over the hook dispatch. R11.1: handleSpecialPackage is called only from tryParsePackage, the call is dominated by pkg.ReadFrom's error being nil (a retried, incomplete parse cannot reach a hook) and it dominates the delivery send. R11.2: the delivery `packageCh <- pkg` is dominated by pass == true. R11.3: inside handleSpecialPackage — on the *EnvChangePackage edge every return yields false; the member loop calls callEnvChangeHooks exactly once per iteration with (member.Type, member.OldValue, member.NewValue) of the iteration's member; Conn.packetSize is stored from Atoi(member.NewValue) only on the Type == TDS_ENV_PACKSIZE edge; on the *EEDPackage edge the informational test is the non-vacuous mask Status&TDS_EED_INFO == TDS_EED_INFO, its true edge returns false without calling hooks, the other edge calls callEEDHooks exactly once and returns true. R11.4: callEEDHooks/callEnvChangeHooks are a single range loop over the registered slice calling each element once while holding the hooks mutex; Register*Hooks append to the same slice under the same mutex and reject nil entries before appending. R11.5: NextPackageUntil collects every *EEDPackage (Add, then continue before the callback); every return on a callback-error path (other than the identity io.EOF shortcut) returns fmt.Errorf(...%w, err) or the *EEDError whose WrappedError was set to it; EEDError.Is delegates to errors.Is(WrappedError, target); EED packages collected by the drain are appended after the earlier ones. R11.7 = R02.7 (a polling NextPackageUntil that has consumed an EED must wait for the rest; giving up drops the collected messages). R11.4 also requires that the hook lists are only ever appended to (never assigned a caller's slice). R11.8 = R07.1. R11.9: EEDError.EEDPackages is written only by append (Add, and the merge in NextPackageUntil); no element store and no sort.* / slices.Sort* call takes it — Error() has a value receiver but shares the backing array with the error the caller holds. R11.6 = C06's R06.5 for the member parser (each ENVCHANGE member is parsed into a fresh struct). R11.1 also requires one package per tryParsePackage invocation (a handled special package must be discarded before the next package is attempted, otherwise a fragmented successor makes it be parsed and reported again). R11.3 also requires that every iteration of the member loop evaluates the PACKSIZE test.",
 			NotDecided:  "Exactly-once across packetisations rests on C02/C07 (retry without side effects); panicking hooks and hooks registered concurrently with dispatch are not decided.",
 			Assumptions: []string{"hooks do not re-enter the channel"},
 		}})
@@ -28,6 +28,10 @@ func runC11(r *core.Run) {
 	r.Rule("R11.6", "ENVCHANGE members are parsed into fresh structs", 1, false)
 	r.Rule("R11.7", "NextPackageUntil waits for every package after the first, so no collected message is dropped by a poll (R02.7)", 1, false)
 	defer c02WaitAfterFirst(r, "R11.7")
+	r.Rule("R11.8", "an environment change or message cut by a packet boundary is retried, not half-reported: every short read is ErrNotEnoughBytes (E-ERR, all call sites)", 213, true)
+	defer func() { errSites(r, newErrFlow(r.Prog), "R11.8") }()
+	r.Rule("R11.9", "the messages an EEDError carries are only ever appended to (formatting or inspecting the error does not reorder them)", 1, false)
+	defer c11EEDReadOnly(r)
 
 	hsp := p.Func("tds", "Channel", "handleSpecialPackage")
 	tpp := p.Func("tds", "Channel", "tryParsePackage")
@@ -92,7 +96,7 @@ func runC11(r *core.Run) {
 	c11Handler(r, hsp)
 	packSizeEveryMember(r, "R11.3")
 	c11Hooks(r)
-	c11Until(r)
+	c11Until(r, "R11.5")
 
 	// R11.6
 	ef := newErrFlow(p)
@@ -528,7 +532,7 @@ func c11Hooks(r *core.Run) {
 	}
 }
 
-func c11Until(r *core.Run) {
+func c11Until(r *core.Run, rule string) {
 	p := r.Prog
 	fn := p.Func("tds", "Channel", "NextPackageUntil")
 	add := p.Func("tds", "EEDError", "Add")
@@ -568,11 +572,11 @@ func c11Until(r *core.Run) {
 			}
 		})
 	}
-	r.Check(okAdd, "R11.5", "NextPackageUntil: EED packages collected, not passed to the callback", fn.Pos(), "Add(eed) then continue", whyAdd)
+	r.Check(okAdd, rule, "NextPackageUntil: EED packages collected, not passed to the callback", fn.Pos(), "Add(eed) then continue", whyAdd)
 
 	// returns on the callback-error path
 	if cbCall == nil {
-		r.Unknown("R11.5", "NextPackageUntil: callback error carries the messages", fn.Pos(), "callback call not found")
+		r.Unknown(rule, "NextPackageUntil: callback error carries the messages", fn.Pos(), "callback call not found")
 		return
 	}
 	cbErr, _ := errResult(cbCall)
@@ -589,7 +593,7 @@ func c11Until(r *core.Run) {
 		}
 	}
 	if failIf == nil {
-		r.Bad("R11.5", "NextPackageUntil: callback error carries the messages", cbCall.Pos(), "callback error not tested")
+		r.Bad(rule, "NextPackageUntil: callback error carries the messages", cbCall.Pos(), "callback error not tested")
 		return
 	}
 	_, nn, _ := core.ErrNilTest(failIf.Cond)
@@ -661,7 +665,7 @@ func c11Until(r *core.Run) {
 		}
 		bad = "on a callback-error path NextPackageUntil returns " + core.Expr(ev) + ", which neither wraps the callback's error with %w nor is the EEDError carrying it: the caller cannot match its own error and the collected messages are lost"
 	})
-	r.Check(bad == "", "R11.5", "NextPackageUntil: callback error carries the messages", failIf.Pos(), "every such return is fmt.Errorf(%w, err) or the EEDError whose WrappedError is that", bad)
+	r.Check(bad == "", rule, "NextPackageUntil: callback error carries the messages", failIf.Pos(), "every such return is fmt.Errorf(%w, err) or the EEDError whose WrappedError is that", bad)
 
 	// drained EED packages appended after the earlier ones
 	okApp := false
@@ -688,7 +692,7 @@ func c11Until(r *core.Run) {
 			}
 		}
 	}
-	r.Check(okApp, "R11.5", "NextPackageUntil: drained messages appended in order", fn.Pos(), "eedError.EEDPackages = append(eedError.EEDPackages, final.EEDPackages...)", "messages received while draining are not appended after the earlier ones")
+	r.Check(okApp, rule, "NextPackageUntil: drained messages appended in order", fn.Pos(), "eedError.EEDPackages = append(eedError.EEDPackages, final.EEDPackages...)", "messages received while draining are not appended after the earlier ones")
 
 	// EEDError.Is
 	is := p.Func("tds", "EEDError", "Is")
@@ -701,7 +705,7 @@ func c11Until(r *core.Run) {
 			}
 		}
 	}
-	r.Check(okIs, "R11.5", "EEDError.Is delegates to the wrapped error", is.Pos(), "errors.Is(err.WrappedError, other)", "EEDError.Is does not delegate to errors.Is(WrappedError, target): the aggregated error no longer matches the callback's error")
+	r.Check(okIs, rule, "EEDError.Is delegates to the wrapped error", is.Pos(), "errors.Is(err.WrappedError, other)", "EEDError.Is does not delegate to errors.Is(WrappedError, target): the aggregated error no longer matches the callback's error")
 }
 
 // packSizeEveryMember: every iteration of handleSpecialPackage's member loop
@@ -752,4 +756,72 @@ func packSizeEveryMember(r *core.Run, rule string) {
 		}
 	})
 	r.Check(ok, rule, key, test.Pos(), "no path through an iteration bypasses the PACKSIZE test", "an iteration of the member loop can complete without testing the member for TDS_ENV_PACKSIZE (a shortcut skips members): a packet size the server announced is not applied and the connection keeps packetising with the old size")
+}
+
+// c11EEDReadOnly: R11.9.
+func c11EEDReadOnly(r *core.Run) {
+	p := r.Prog
+	fPk := p.Field("tds", "EEDError", "EEDPackages")
+	n := 0
+	var derives func(v ssa.Value) bool
+	derives = func(v ssa.Value) bool {
+		for d := 0; d < 4 && v != nil; d++ {
+			if f, _ := core.FieldLoad(v); f == fPk {
+				return true
+			}
+			// a local variable (captured by a closure, hence in memory) that was assigned the list
+			if u, ok := v.(*ssa.UnOp); ok && u.Op == token.MUL {
+				if al, isAl := u.X.(*ssa.Alloc); isAl {
+					for _, ref := range *al.Referrers() {
+						if st, isSt := ref.(*ssa.Store); isSt && st.Addr == ssa.Value(al) && st.Val != v {
+							if f, _ := core.FieldLoad(st.Val); f == fPk {
+								return true
+							}
+						}
+					}
+				}
+			}
+			switch x := v.(type) {
+			case *ssa.Slice:
+				v = x.X
+			case *ssa.MakeInterface:
+				v = x.X
+			case *ssa.ChangeType:
+				v = x.X
+			default:
+				return false
+			}
+		}
+		return false
+	}
+	for _, fn := range p.ModuleFuncs() {
+		for _, b := range fn.Blocks {
+			for _, in := range b.Instrs {
+				switch x := in.(type) {
+				case *ssa.IndexAddr:
+					if !derives(x.X) {
+						continue
+					}
+					for _, ref := range *x.Referrers() {
+						if st, ok := ref.(*ssa.Store); ok && st.Addr == ssa.Value(x) {
+							n++
+							r.Bad("R11.9", core.FuncName(fn)+": element of EEDError.EEDPackages assigned", st.Pos(), "an element of the message list of an EEDError is overwritten: the error the caller holds no longer carries the messages in arrival order")
+						}
+					}
+				case *ssa.Call:
+					f := core.StaticCallee(x)
+					if f == nil || f.Pkg == nil || (f.Pkg.Pkg.Path() != "sort" && f.Pkg.Pkg.Path() != "slices") {
+						continue
+					}
+					for _, a := range x.Call.Args {
+						if derives(a) {
+							n++
+							r.Bad("R11.9", core.FuncName(fn)+": "+calleeKey(x)+" on EEDError.EEDPackages", x.Pos(), calleeKey(x)+" permutes the message list of the EEDError in place (a value receiver copies the slice header, not the elements): after the error was formatted once, the messages it carries are no longer in the order they arrived")
+						}
+					}
+				}
+			}
+		}
+	}
+	r.Check(n == 0, "R11.9", "EEDError.EEDPackages is append-only", token.NoPos, "no element store, no in-place sort", "see the individual reports")
 }
